@@ -132,3 +132,52 @@ Example C03_nonvacuous :
      [254; 253; 1; 1; 252; 0; 0; 1];
      [112; 5; 0; 254; 253; 252; 0; 0; 1]].
 Proof. vm_compute. reflexivity. Qed.
+
+(* ================================================================== added: acknowledgements over whole runs (layer 2)
+   Server roles (MQTT 3.1.1 and 5), ALL operation lists (no well-formedness needed), every prefix a of the
+   run a ++ b: the PUBACKs and PUBRECs written so far -- every wire entry of type 64 or 80 whose reason is not
+   0x91 = 145, i.e. everything but the immediate "packet identifier in use" answers (and a handler error the
+   application itself mapped to 0x91) -- are at most as many as the distinct publish handler invocations whose
+   completion operation (2,h,res) has been given so far ([done_handlers a], characterised below).  So no
+   acknowledgement is written for a handler that has not completed, and no handler is acknowledged twice, as a
+   count.  [cumwire (trace a s)] is the wire of the run up to the end of a (first conjunct: a prefix of the
+   whole run's wire), as packets (type, id, reason) ([flat3 ws]); [cnt ackt ws] counts the acknowledgements.
+   Invariant (Proofs/InboundRun.v, [AKg]): (acks written) + (ack codes waiting in ready slots of the response
+   queue) + (ack in flight) <= number of handler numbers h with a completion given, h already invoked, and no
+   call parked on h; calls parked on handlers have distinct numbers.
+   Not proved: the per-identifier form; the client roles (there a PUBLISH that no route matches is acknowledged
+   by the protocol service, C03_client_unrouted_ack_is_puback, so the bound would have to count protocol
+   service completions too). *)
+From MV Require Import Proofs.InboundRun.
+
+Theorem C03_one_ack_per_handler_run : forall (is5 : bool) (cf : list N) (a b : list (list N)),
+  let s := init_st is5 cf in
+  trace (a ++ b) s = trace a s ++ trace b (after a s) /\
+  exists ws, cumwire (trace a s) = flat3 ws /\ (cnt ackt ws <= length (done_handlers a))%nat.
+Proof. exact one_ack_per_handler_run. Qed.
+Print Assumptions C03_one_ack_per_handler_run.
+
+Theorem C03_done_handlers_spec : forall (ops : list (list N)) (h : N),
+  In h (done_handlers ops) <-> exists res, In [2; h; res] ops.
+Proof. exact done_handlers_spec. Qed.
+Print Assumptions C03_done_handlers_spec.
+Theorem C03_done_handlers_distinct : forall (ops : list (list N)), NoDup (done_handlers ops).
+Proof. exact done_handlers_nodup. Qed.
+Print Assumptions C03_done_handlers_distinct.
+
+(* what is counted *)
+Theorem C03_ack_counted : forall (x : N * N * N),
+  ackt x = ((fst (fst x) =? 64) || (fst (fst x) =? 80)) && negb (snd x =? 145).
+Proof. exact ackt_spec. Qed.
+Print Assumptions C03_ack_counted.
+
+(* non-vacuity: v5 server, three QoS 1 PUBLISHes (handlers 1..3 pending); completing handler 2 twice and a
+   handler 7 that does not exist writes nothing (responses wait behind handler 1, in order); after handler 1
+   completes two PUBACKs are out: 2 acknowledgements <= 3 handler numbers with a completion given *)
+Example C03_one_ack_per_handler_nonvacuous :
+  let a := [[1; 1; 1; 1; 1; 0; 0; 0]; [1; 1; 1; 2; 1; 0; 0; 0]; [1; 1; 1; 3; 1; 0; 0; 0];
+            [2; 2; 0]; [2; 2; 0]; [2; 7; 0]; [2; 1; 0]] in
+  done_handlers a = [2; 7; 1] /\
+  cumwire (trace a (init_st true [2; 0; 0; 0; 1])) = flat3 [(64, 1, 0); (64, 2, 0)] /\
+  cnt ackt [(64, 1, 0); (64, 2, 0)] = 2%nat.
+Proof. vm_compute. repeat split; reflexivity. Qed.
